@@ -16,7 +16,7 @@ import sys
 
 def main():
     root = sys.argv[1] if len(sys.argv) > 1 else "/repo"
-    inv = {"functions": [], "module_names": {}, "class_names": {}}
+    inv = {"functions": [], "module_names": {}, "class_names": {}, "nested": []}
     pkg = os.path.join(root, "bromelia")
     for dp, dn, fn in os.walk(pkg):
         dn[:] = [d for d in dn if d != "__pycache__"]
@@ -67,8 +67,34 @@ def main():
 
             for s in tree.body:
                 top(s)
+            # nested function definitions: <module>.<outer qualname>.<locals>.<name>
+            def nested(node, qual):
+                for ch in ast.iter_child_nodes(node):
+                    if isinstance(ch, (ast.FunctionDef, ast.AsyncFunctionDef)):
+                        q = f"{qual}.{ch.name}"
+                        if isinstance(node, (ast.FunctionDef, ast.AsyncFunctionDef)):
+                            inv["nested"].append(q)
+                        nested(ch, q)
+                    elif isinstance(ch, ast.ClassDef):
+                        nested(ch, f"{qual}.{ch.name}")
+                    else:
+                        nested_stmt(ch, qual, node)
+
+            def nested_stmt(node, qual, owner):
+                for ch in ast.iter_child_nodes(node):
+                    if isinstance(ch, (ast.FunctionDef, ast.AsyncFunctionDef)):
+                        q = f"{qual}.{ch.name}"
+                        if isinstance(owner, (ast.FunctionDef, ast.AsyncFunctionDef)):
+                            inv["nested"].append(q)
+                        nested(ch, q)
+                    elif isinstance(ch, ast.ClassDef):
+                        nested(ch, f"{qual}.{ch.name}")
+                    else:
+                        nested_stmt(ch, qual, owner)
+            nested(tree, mod)
             inv["module_names"][mod] = sorted(names)
     inv["functions"] = sorted(set(inv["functions"]))
+    inv["nested"] = sorted(set(inv["nested"]))
     out = os.path.join(os.path.dirname(os.path.abspath(__file__)), "..", "..", "reference", "inventory.json")
     json.dump(inv, open(out, "w"), indent=0, sort_keys=True)
     print("functions", len(inv["functions"]), "modules", len(inv["module_names"]), "classes", len(inv["class_names"]))
